@@ -2673,3 +2673,39 @@ def s_default_ne(ex, st, call):
     for s2, v in ex.do_call(st, call.depth, eq, call.args, 'bool'):
         out.append((s2, z3.Not(v) if z3.is_bool(v) else v))
     return out
+
+
+@rule(r'^File::(try_lock|lock|unlock|try_lock_shared)$')
+def s_file_lock(ex, st, call):
+    f = deref(call.args[0])
+    kind = call.c0.rsplit('::', 1)[-1]
+    res = ex.fresh(st, call.dst_ty, kind)
+    st.emit(Ev('F_' + kind.upper(), obj=f if isinstance(f, Obj) else None, res=res, site=call.site))
+    return res
+
+
+@rule(r'^(std::ops::)?RangeInclusive::new$', r'^<(std::ops::)?RangeInclusive<(u8|u16|u32|u64|usize)> as Iterator>::next$',
+      r'^<(std::ops::)?RangeInclusive<(u8|u16|u32|u64|usize)> as IntoIterator>::into_iter$', prio=1)
+def s_range_inclusive(ex, st, call):
+    kind = call.c0.rsplit('::', 1)[-1]
+    if kind == 'new':
+        o = Obj(call.dst_ty, 'range_incl', 'struct')
+        o.data['lo'] = call.args[0]; o.data['hi'] = call.args[1]; o.data['done'] = z3.BoolVal(False)
+        return o
+    if kind == 'into_iter':
+        return call.args[0]
+    r = deref(call.args[0])
+    if not isinstance(r, Obj) or 'lo' not in r.data:
+        return NotImplemented
+    lo, hi, done = r.data['lo'], r.data['hi'], r.data['done']
+    out = []
+    for s2, more, kept in fork_cond(ex, st, z3.And(z3.Not(done), z3.ULE(lo, hi)), [r]):
+        r2 = kept[0]
+        if more:
+            cur = r2.data['lo']
+            r2.data['done'] = z3.simplify(cur == r2.data['hi'])
+            r2.data['lo'] = z3.simplify(z3.If(cur == r2.data['hi'], cur, cur + 1))
+            out.append((s2, ex.mk_enum(call.dst_ty, 'Some', [cur])))
+        else:
+            out.append((s2, ex.mk_enum(call.dst_ty, 'None')))
+    return out
